@@ -29,7 +29,7 @@ def crash_or_fail(ctx, rc, out, what):
 # ------------------------------------------------------------------ storage engine family
 KV_RULE = ("programs = operation paths exported by TLC from KVStore.tla (one per distinct model state) "
            "+ seeded random programs + churn programs (uniform or skewed key choice, recycled tables freed at once or kept for an hour, Put or "
-           "PutRaw) + programs that alternate tiny and nearly table-sized entries + programs with default-size tables and entries of 40-520 KiB, executed on the real internal/kvstore; a program is "
+           "PutRaw) + programs that alternate tiny and nearly table-sized entries + programs with several thousand small entries, half of them deleted (tables with well over 1000 live entries each) + programs with default-size tables and entries of 40-520 KiB, executed on the real internal/kvstore; a program is "
            "non-trivial if the store grew to >= 2 tables or a compaction step moved entries; distinct = "
            "distinct (table size, operation sequence)")
 
@@ -67,7 +67,7 @@ def kv_run(ctx, prop, design_props, what):
     env = {"VERIF_OUT": out, "VERIF_BEH": behfile, "VERIF_KV_T": 200,
            "VERIF_KV_RANDOM": 60 if quick else 1500, "VERIF_KV_RANDOM_LEN": 120 if quick else 200,
            "VERIF_KV_CHURN": 4 if quick else 60, "VERIF_KV_CHURN_LEN": 2500 if quick else 20000,
-           "VERIF_KV_BIG": 0 if quick else 2, "VERIF_KV_LARGE": 2 if quick else 30, "VERIF_KV_MIXED": 2 if quick else 40}
+           "VERIF_KV_BIG": 0 if quick else 2, "VERIF_KV_LARGE": 2 if quick else 30, "VERIF_KV_MIXED": 2 if quick else 40, "VERIF_KV_MANY": 1 if quick else 8}
     rc, o = vlib.go_test(ctx, "kv", "TestKV", env=env, timeout=1500)
     if crash_or_fail(ctx, rc, o, "running storage programs"):
         return {"evaluations": 0, "distinct_nontrivial": 0, "rule": KV_RULE, "samples": ["crash"]}
@@ -704,7 +704,8 @@ def ledger_tags(head, evs, line, msg):
             written_since = True
     return {"msg": msg.split(" (")[0], "phase": e.get("phase", ""), "last_op": (last or {}).get("op", ""), "last_op_phase": (last or {}).get("phase", ""),
             "all_copies_were_on_the_crashed_member": surv == 0 and not written_since,
-            "a_survivor_still_stores_the_key": bool(surv) and not written_since, "live_members": e.get("live", -1)}
+            "a_survivor_still_stores_the_key": bool(surv) and not written_since, "live_members": e.get("live", -1),
+            "rescued_from_expiry": any(x.get("note", "").startswith("overwrite of an expiring key") for x in evs if x.get("k") == k)}
 
 
 def ledger_run(ctx, test, tracefile, summary, env, design, rule, what):
